@@ -326,17 +326,21 @@ package types
 //@ vars (types.MsgBindService).ValidateBasic: msg=github.com/irismod/service/types.MsgBindService#0 err=error#0 err=error#1 err=error#2 err=error#3 err=error#4 err=error#5
 //@ props C20 C03
 //@ ensures [C20,C03] deposit_has_no_negative_amount: err == NoErr ==> (forall d Str :: {amt(msg.Deposit, d)} amt(msg.Deposit, d) >= 0)
+//@ ensures [C20,C15] deposit_is_a_valid_coin_list: err == NoErr ==> coinsValid(msg.Deposit)
+//@ ensures [C20,C15] qos_positive: err == NoErr ==> msg.QoS > 0
 //@ ensures [C20,C15] provider_and_owner_present: err == NoErr ==> len(msg.Provider) > 0 && len(msg.Owner) > 0
 
 //@ func (MsgUpdateServiceBinding).ValidateBasic
 //@ vars (types.MsgUpdateServiceBinding).ValidateBasic: msg=github.com/irismod/service/types.MsgUpdateServiceBinding#0 err=error#0 err=error#1 err=error#2 err=error#3 err=error#4
 //@ props C20 C03
 //@ ensures [C20,C03] deposit_has_no_negative_amount: err == NoErr ==> (forall d Str :: {amt(msg.Deposit, d)} amt(msg.Deposit, d) >= 0)
+//@ ensures [C20,C15] deposit_is_empty_or_a_valid_coin_list: err == NoErr ==> len(msg.Deposit) == 0 || coinsValid(msg.Deposit)
 
 //@ func (MsgEnableServiceBinding).ValidateBasic
 //@ vars (types.MsgEnableServiceBinding).ValidateBasic: msg=github.com/irismod/service/types.MsgEnableServiceBinding#0 err=error#0 err=error#1 err=error#2 err=error#3
 //@ props C20 C03
 //@ ensures [C20,C03] deposit_has_no_negative_amount: err == NoErr ==> (forall d Str :: {amt(msg.Deposit, d)} amt(msg.Deposit, d) >= 0)
+//@ ensures [C20,C15] deposit_is_empty_or_a_valid_coin_list: err == NoErr ==> len(msg.Deposit) == 0 || coinsValid(msg.Deposit)
 
 //@ func (MsgSetWithdrawAddress).ValidateBasic
 //@ vars (types.MsgSetWithdrawAddress).ValidateBasic: msg=github.com/irismod/service/types.MsgSetWithdrawAddress#0 err=error#0
